@@ -270,10 +270,35 @@ def run(index, rep, tier):
                 flipped = {"Lt": "Gt", "LtE": "GtE", "Gt": "Lt", "GtE": "LtE"}.get(cp[1], cp[1])
                 gte = (n, (cp[2], flipped, cp[0]))
         if gte is None:
+            # the threshold may have been rescaled: thr = min_freq * <normaliser>, compared with the raw counts
+            scaled = {}
+            for n in walk_no_nested(fi.node):
+                if isinstance(n, ast.Assign) and isinstance(n.targets[0], ast.Name) and isinstance(n.value, ast.BinOp) and isinstance(n.value.op, ast.Mult) \
+                        and any(isinstance(x, ast.Name) and x.id == "min_freq" for x in (n.value.left, n.value.right)):
+                    scaled[n.targets[0].id] = n.value.right if norm(n.value.left) == "min_freq" else n.value.left
+            for n in walk_no_nested(fi.node):
+                cp = compare_parts(n) if isinstance(n, ast.Compare) else None
+                if not cp:
+                    continue
+                for thr, other, op in ((cp[2], cp[0], cp[1]), (cp[0], cp[2], {"Lt": "Gt", "LtE": "GtE", "Gt": "Lt", "GtE": "LtE"}.get(cp[1], cp[1]))):
+                    factor = scaled.get(thr.id) if isinstance(thr, ast.Name) else None
+                    if factor is None and isinstance(thr, ast.BinOp) and isinstance(thr.op, ast.Mult) and "min_freq" in (norm(thr.left), norm(thr.right)):
+                        factor = thr.right if norm(thr.left) == "min_freq" else thr.left
+                    if factor is None:
+                        continue
+                    okf = norm(factor) in ("self.calc_normalization_weight()", "self.sum_of_tree_weights")
+                    rep.check(okf and op == "GtE" and "split_counts" in norm(other), "R05.3", fi.qualname, "threshold rescaled by %s: %s" % (norm(factor), norm(n)), fn_where(fi, n),
+                              "consensus_tree compares the weighted count with min_freq times the normalisation weight",
+                              "consensus_tree admits a split when `%s`, i.e. it compares the WEIGHTED count of a split with min_freq times `%s`: frequencies are counts divided by the sum of tree weights (calc_normalization_weight), so under tree weights whose sum differs from the number of trees the majority-rule tree loses splits that reach the threshold or gains splits that do not" % (norm(n), norm(factor)))
+                    gte = "rescaled"
+        if gte is None:
             raise AnalysisError("R05.3: threshold comparison against min_freq not found in consensus_tree")
-        rep.check(gte[1][1] == "GtE", "R05.3", fi.qualname, "threshold comparison: " + norm(gte[0]), fn_where(fi, gte[0]),
-                  "consensus_tree admits a split when `%s`" % norm(gte[0]),
-                  "consensus_tree admits splits with `%s`; the property requires every split whose frequency REACHES the threshold (>=)" % norm(gte[0]))
+        if gte == "rescaled":
+            gte = None
+        if gte is not None:
+            rep.check(gte[1][1] == "GtE", "R05.3", fi.qualname, "threshold comparison: " + norm(gte[0]), fn_where(fi, gte[0]),
+                      "consensus_tree admits a split when `%s`" % norm(gte[0]),
+                      "consensus_tree admits splits with `%s`; the property requires every split whose frequency REACHES the threshold (>=)" % norm(gte[0]))
         rule_sort_order(index, rep, "R05.3")
         fc = index.function(SD + ".collapse_edges_with_less_than_minimum_support")
         cmpn = [n for n in walk_no_nested(fc.node) if isinstance(n, ast.Compare) and any(isinstance(x, ast.Name) and x.id == "min_freq" for x in ast.walk(n))]
